@@ -228,6 +228,7 @@ type c08Body struct {
 	failures  int  // number of entries
 	allowed   int  // of which tolerated
 	nilEntry  bool // contains a null entry
+	sameIndex bool // every entry names message 0 (one message refused once per subnet it went to)
 }
 
 // error texts a node can send (lighthouse message texts; teku uses its own duplicate text)
@@ -249,6 +250,8 @@ func c08Bodies(client string) []c08Body {
 		{text: `POST failed with status 400: {"code":` + code + `,"message":"bad","failures":[]}`, failures: 0},
 		{text: `POST failed with status 400: {broken`, parseFail: true},
 		{text: `POST failed with status 400: {"code":` + code + `,"failures":[null]}`, failures: 1, nilEntry: true},
+		{text: `POST failed with status 400: {"code":` + code + `,"message":"bad","failures":[{"index":` + i0 + `,"message":"` + dup + `"},{"index":` + i1 + `,"message":"` + dup + `"}]}`, failures: 2, allowed: 2},
+		{text: `POST failed with status 400: {"code":` + code + `,"message":"bad","failures":[{"index":` + i0 + `,"message":"` + dup + `"},{"index":` + i0 + `,"message":"` + dup + `"}]}`, failures: 2, allowed: 2, sameIndex: true},
 	}
 }
 
@@ -277,7 +280,11 @@ func VerifStub_json_Unmarshal(data []byte, v any) error {
 				case b.nilEntry:
 					r.Failures = append(r.Failures, nil)
 				case k < b.allowed:
-					r.Failures = append(r.Failures, &lhErrorResponseFailure{Index: k, Message: "Verification: PriorSyncCommitteeMessageKnown { validator_index: 1, slot: 2 }"})
+					idx := k
+					if b.sameIndex {
+						idx = 0
+					}
+					r.Failures = append(r.Failures, &lhErrorResponseFailure{Index: idx, Message: "Verification: PriorSyncCommitteeMessageKnown { validator_index: 1, slot: 2 }"})
 				default:
 					r.Failures = append(r.Failures, &lhErrorResponseFailure{Index: k, Message: "Invalid signature"})
 				}
